@@ -47,7 +47,7 @@ func sbStateEq(a, b *SegmentBase, tag string) {
 
 // H04_persist: build, Persist, Open: equal state, equal answers; WriteTo == file bytes; footer content.
 func H04_persist() {
-	docs, sp := vGenBatch(vStdCfg("", "d", 1+vChoice("nDocs", vParam("maxDocs", 2)), -1))
+	docs, sp := vGenBatch(vStdCfg("", "d", vChoice("nDocs", 1+vParam("maxDocs", 2)), -1)) // also the empty batch
 	mode := vChunkMode()
 	var z ZapPlugin
 	if vBool("priorBuild") {
